@@ -105,3 +105,44 @@ def union_inner_flags_contract():
                           "flags (and no_optional=True); Unset is a member iff the union is optional and no_optional is false",
                 props=["C11", "C10"])
     return FnContract(f"{P}.union:UnionProperty.get_type_strings_in_union", [Case("two-members", make, [cl], raises=(), props=["C11", "C10"])])
+
+
+def composite_type_string_contract(kind):
+    """ModelProperty / ListProperty / ConstProperty override get_type_string: same Unset discipline, base type from their own
+    base-type functions (stubbed: arbitrary strings without 'Unset')."""
+    def make(I):
+        mod = {"ModelProperty": "model_property", "ListProperty": "list_property", "ConstProperty": "const"}[kind]
+        import importlib
+        C = getattr(importlib.import_module(f"{P}.{mod}"), kind)
+        S = z3.StringSort()
+        base_py, base_json = z3.Const("base_python", S), z3.Const("base_json", S)
+        I.assume(z3.And(z3.Not(z3.Contains(base_py, z3.StringVal("Unset"))), z3.Not(z3.Contains(base_json, z3.StringVal("Unset")))))
+        for meth, term in (("get_base_type_string", base_py), ("get_base_json_type_string", base_json)):
+            fn = C.__dict__.get(meth)
+            if fn is not None:
+                I.contracts[f"{fn.__module__}:{fn.__qualname__}"] = lambda I2, a, k, term=term: SStr(term)
+        fields = {"name": "p", "required": SBool(z3.Const("required", z3.BoolSort())), "default": None, "python_name": "p",
+                  "description": None, "example": None}
+        if kind == "ModelProperty":
+            fields["class_info"] = SOpaque("class_info", attrs={"name": SStr(z3.Const("class_name", S))})
+            I.assume(z3.Not(z3.Contains(z3.Const("class_name", S), z3.StringVal("Unset"))))
+        if kind == "ConstProperty":
+            code = z3.Const("python_code", S)
+            I.assume(z3.Not(z3.Contains(code, z3.StringVal("Unset"))))
+            fields["value"] = SOpaque("value", attrs={"python_code": SStr(code)})
+        p = SObj(C, fields)
+        flags = {n: SBool(z3.Const(n, z3.BoolSort())) for n in ("no_optional", "json", "multipart", "quoted")}
+        return SFunc("pyfunc", C.get_type_string, self_val=p), [], dict(flags), {"p": p, **flags}
+
+    def post(ctx):
+        I = ctx.I
+        i = ctx.inputs
+        r = I.to_str_term(ctx.value)
+        opt = z3.And(z3.Not(i["p"].fields["required"].t), z3.Not(i["no_optional"].t))
+        U = z3.StringVal("Union[")
+        return z3.And(z3.Contains(r, z3.StringVal("Unset")) == opt, z3.Implies(opt, z3.PrefixOf(U, r)))
+    cl = Clause("unset-iff-optional", post,
+                statement=f"{kind}.get_type_string admits Unset (as a Union member) exactly when the property is optional and "
+                          f"no_optional is not requested", props=["C11", "C10"])
+    mod = {"ModelProperty": "model_property", "ListProperty": "list_property", "ConstProperty": "const"}[kind]
+    return FnContract(f"{P}.{mod}:{kind}.get_type_string", [Case("any-flags", make, [cl], raises=(), props=["C11", "C10"])])
